@@ -244,6 +244,9 @@ class Interp:
         try:
             self.loading.append(name)
             self.exec_block(tree.body, frame, module_level=True)
+        except BaseException:
+            self.modules.pop(name, None)
+            raise
         finally:
             self.loading.pop()
             self.ctx = saved
